@@ -7,8 +7,8 @@ Model of the GLUE in `src/plan.rs` and of the per-descriptor-type assembly in
 * `Descriptor::get_satisfaction*`   — the same completed stack through
   `Miniscript::satisfy` + `util::witness_to_scriptsig` / the wrappers              (`getSatisfaction`)
 * `Plan::{witness_size, scriptsig_size, satisfaction_weight}` and `ItemSize for Placeholder`
-* `plan::is_key_direct_child_of`, `Assets::has_ecdsa_key` (`usize` subtraction modelled:
-  `none` = the Rust panics)
+* `plan::is_key_direct_child_of`, `Assets::has_ecdsa_key` (total since the
+  `definite_path_len > 0 &&` guard, commit "fix: is_key_direct_child_of does not underflow …")
 
 The miniscript satisfier itself is `Model/Satisfy.lean`; both the plan path and the
 descriptor path run the SAME `sat_dissat`, so everything here is parametric in the template
@@ -73,10 +73,13 @@ def DescData.unsignedScriptSig (d : DescData) : Bytes :=
   | .shWpkh | .shWsh => pushSlice d.inner
   | _ => []
 
-/-- `Plan::satisfy` after the template has been completed to `stack` -/
+/-- `Plan::satisfy` after the template has been completed to `stack` (since commit "fix:
+Plan::satisfy for sh(<miniscript>) pushes the redeem script": pre-segwit outputs go through
+`witness_to_scriptsig`, `sh(<miniscript>)` appends the redeem script first) -/
 def planSatisfy (d : DescData) (stack : List Bytes) : List Bytes × Bytes :=
   match d.ty with
-  | .bare | .sh | .pkh => ([], stack.flatMap pushSlice)
+  | .bare | .pkh => ([], witnessToScriptSig stack)
+  | .sh => ([], witnessToScriptSig (stack ++ [d.script]))
   | .wpkh | .tr => (stack, [])
   | .shWpkh => (stack, d.unsignedScriptSig)
   | .wsh | .shWsh => (stack ++ [d.script], d.unsignedScriptSig)
@@ -92,14 +95,6 @@ def getSatisfaction (d : DescData) (stack : List Bytes) : List Bytes × Bytes :=
   | .shWpkh => (stack, d.unsignedScriptSig)
   | .wsh => (stack ++ [d.script], [])
   | .shWsh => (stack ++ [d.script], d.unsignedScriptSig)
-
-/-- The REPAIRED `Plan::satisfy` (proposed patch): pre-segwit outputs go through
-`witness_to_scriptsig`, `sh(<miniscript>)` appends the redeem script first. -/
-def planSatisfyFixed (d : DescData) (stack : List Bytes) : List Bytes × Bytes :=
-  match d.ty with
-  | .bare => ([], witnessToScriptSig stack)
-  | .sh => ([], witnessToScriptSig (stack ++ [d.script]))
-  | _ => planSatisfy d stack
 
 /-! ### plan construction and completion -/
 
@@ -129,9 +124,6 @@ def complete (r : Ph → Option Bytes) (l : List Ph) : Option (List Bytes) := l.
 /-- `Plan::satisfy` -/
 def PlanM.satisfy (d : DescData) (r : Ph → Option Bytes) (p : PlanM) : Option (List Bytes × Bytes) :=
   (complete r p.template).map (planSatisfy d)
-
-def PlanM.satisfyFixed (d : DescData) (r : Ph → Option Bytes) (p : PlanM) : Option (List Bytes × Bytes) :=
-  (complete r p.template).map (planSatisfyFixed d)
 
 /-- `Miniscript::satisfy*` / `Tr::get_satisfaction*`: `try_completing(..).expect(..)` on the
 template, then `Stack → Ok`, otherwise `Err(CouldNotSatisfy)` -/
@@ -177,34 +169,28 @@ def Item.size : Item → Nat
 /-- `util::witness_size(template)` -/
 def templateSize (t : List Item) : Nat := (t.map Item.size).sum + varintLen t.length
 
-/-- `Plan::scriptsig_size` -/
-def scriptsigSize (ty : DescType) (t : List Item) : Nat :=
+/-- bytes a `push_slice` of `n` bytes occupies -/
+def pushLen (n : Nat) : Nat := n + (if n < 0x4c then 1 else if n < 0x100 then 2 else 3)
+
+/-- `Plan::scriptsig_size`; `scriptLen` = length of `explicit_script()` (read for `sh` only).
+Pre-segwit: Σ item sizes (+ the redeem-script push for `sh`) + compact-size of that byte count -/
+def scriptsigSize (ty : DescType) (t : List Item) (scriptLen : Nat) : Nat :=
   match ty.segwitVersion, ty with
-  | none, _ => templateSize t
+  | none, _ =>
+    let items := (t.map Item.size).sum + (if ty = .sh then pushLen scriptLen else 0)
+    items + varintLen items
   | some 1, _ => 1
   | _, .shWpkh => 1 + 1 + 1 + 20
   | _, .shWsh => 1 + 1 + 1 + 32
   | _, _ => 1
-
-/-- bytes a `push_slice` of `n` bytes occupies -/
-def pushLen (n : Nat) : Nat := n + (if n < 0x4c then 1 else if n < 0x100 then 2 else 3)
-
-/-- proposed patch for the pre-segwit arm of `Plan::scriptsig_size`: the redeem-script push
-of `sh(<miniscript>)` is counted and the length prefix is that of the byte length -/
-def scriptsigSizeFixed (ty : DescType) (t : List Item) (scriptLen : Nat) : Nat :=
-  match ty.segwitVersion with
-  | none =>
-    let items := (t.map Item.size).sum + (if ty = .sh then pushLen scriptLen else 0)
-    items + varintLen items
-  | some _ => scriptsigSize ty t
 
 /-- `Plan::witness_size` -/
 def witnessSize (ty : DescType) (t : List Item) : Nat :=
   if ty.segwitVersion.isSome then templateSize t else 0
 
 /-- `Plan::satisfaction_weight` -/
-def satisfactionWeight (ty : DescType) (t : List Item) : Nat :=
-  witnessSize ty t + scriptsigSize ty t * 4
+def satisfactionWeight (ty : DescType) (t : List Item) (scriptLen : Nat) : Nat :=
+  witnessSize ty t + scriptsigSize ty t scriptLen * 4
 
 /-- serialized size of a scriptSig (compact-size prefix + bytes) -/
 def serializedScriptSigSize (ss : Bytes) : Nat := varintLen ss.length + ss.length
@@ -215,18 +201,12 @@ def serializedWitnessSize (w : List Bytes) : Nat :=
 
 /-! ### `Assets` key matching -/
 
-/-- `plan::is_key_direct_child_of` for a single-path key; child numbers as `u32`.
-`none` = panic: `pk_derivation_path[..(len - 1)]` with `len = 0` (subtraction overflow in
-debug builds, slice index out of range in release builds). -/
-def isKeyDirectChildOf (pkPath src : List Nat) : Option Bool :=
-  if pkPath = src then some true
-  else if pkPath.length = 0 then none
-  else some (src == pkPath.take (pkPath.length - 1))
-
-/-- proposed patch: `definite_path_len > 0 &&` before the slice -/
-def isKeyDirectChildOfFixed (pkPath src : List Nat) : Option Bool :=
-  if pkPath = src then some true
-  else some (decide (pkPath.length > 0) && src == pkPath.take (pkPath.length - 1))
+/-- `plan::is_key_direct_child_of` for a single-path key; child numbers as `u32`:
+the paths are equal, or the key's path is non-empty and the source is the key's path minus its
+last child number -/
+def isKeyDirectChildOf (pkPath src : List Nat) : Bool :=
+  if pkPath = src then true
+  else decide (pkPath.length > 0) && src == pkPath.take (pkPath.length - 1)
 
 /-- a key source of `Assets::keys` restricted to what ECDSA lookups read -/
 structure KeySrc where
@@ -234,17 +214,9 @@ structure KeySrc where
   path : List Nat
   ecdsa : Bool
 
-/-- `Assets::has_ecdsa_key`: `keys.iter().any(|..| can_sign.ecdsa && fp == .. && is_key_direct_child_of(..))`
-(short-circuit: the first `true` stops the iteration, a panic before it propagates) -/
-def hasEcdsaKey (childOf : List Nat → List Nat → Option Bool) (keyFp : Nat) (keyPath : List Nat) :
-    List KeySrc → Option Bool
-  | [] => some false
-  | s :: rest =>
-    if s.ecdsa && s.fp == keyFp then
-      match childOf keyPath s.path with
-      | none => none
-      | some true => some true
-      | some false => hasEcdsaKey childOf keyFp keyPath rest
-    else hasEcdsaKey childOf keyFp keyPath rest
+/-- `Assets::has_ecdsa_key`:
+`keys.iter().any(|..| can_sign.ecdsa && fp == .. && is_key_direct_child_of(..))` -/
+def hasEcdsaKey (keyFp : Nat) (keyPath : List Nat) (srcs : List KeySrc) : Bool :=
+  srcs.any fun s => s.ecdsa && s.fp == keyFp && isKeyDirectChildOf keyPath s.path
 
 end MsVerif.Plan
